@@ -12,10 +12,25 @@ ORACLE = {
 
 
 def run(tier, seed):
-    return pipeline.run_property("C02", tier, seed, ORACLE,
-                                 ["CBC and HiGHS are trusted as LP solvers (oracles for one enumerated instance each)",
-                                  "cumulative clauses use 1e-5 relative + 1e-6 absolute (sums of up to 120 solver values)"])
+    res = pipeline.run_property("C02", tier, seed, ORACLE,
+                                ["CBC and HiGHS are trusted as LP solvers (oracles for one enumerated instance each)",
+                                 "cumulative clauses use 1e-5 relative + 1e-6 absolute (sums of up to 120 solver values)"])
+    # deepening: full product of tiny (3- and 5-month) programmes on the real Optimizer, same oracles
+    from .. import tiny
+    t = tiny.explore(tier)
+    cov = res["coverage"]
+    cov["tiny_instance_product"] = {k: t[k] for k in ("n", "solved", "distinct_optima", "bound")}
+    for k in ("executions", "traces_validated_against_impl", "lp_instances"):
+        cov[k] += t["n"]
+    cov["states"] += t["solved"] * 3
+    cov["transitions"] += t["solved"] * 2
+    cov["samples"].append({"tiny": next(iter(tiny.instances(tier)))})
+    res["violations"] = res["violations"] + t["C02"]
+    return res
 
 
 def replay(rp):
+    if "tiny" in rp:
+        from .. import tiny
+        return tiny.replay("C02", rp["tiny"])
     return pipeline.replay("C02", rp)
